@@ -139,7 +139,8 @@ def gen_case(rng, n):
     else:
         files = ['/srv/<vx7q8 c=3>/a.py', '/tmp/"><vx7q9>.py', "/x/' vx7qattr10='1.py", '/t/{tb_str}{#x}{/x}.py', '/é/☃.py', '/a b/c&d.py', '']
     path = rng.pick(['/', '/', '/anything', '/deep/er/path/', '/clastic_assets/', '/clastic_assets/nothing.css', '/clastic_assets/common.css',
-                     '/<vx7q11>', '/%7Btb_str%7D', '/a//b', '/favicon.ico'])
+                     '/<vx7q11>', '/%7Btb_str%7D', '/a//b', '/favicon.ico', '/clastic_assets/../flaw.py', '/clastic_assets//etc/hosts',
+                     '/clastic_assets/js/../../x', '/clastic_assets/..', '/clastic_assets/%2e%2e/x'])
     method = rng.pick(['GET', 'GET', 'GET', 'POST', 'HEAD', 'PUT', 'DELETE'])
     return {'kind': kind, 'text': text, 'files_kind': fk, 'files': files, 'path': path, 'method': method, 'expect': exp, 'n': n}
 
